@@ -292,7 +292,7 @@ class KnownFindings:
 class Check:
     """one run of one property's check; collects coverage, violations, evidence"""
 
-    def __init__(self, prop, tier, seed):
+    def __init__(self, prop, tier, seed, keep_replays=False):
         self.prop = prop
         self.tier = tier
         self.seed = seed
@@ -310,7 +310,8 @@ class Check:
         self.assumptions = []
         self.exhaustive = None
         self.rule = ''
-        shutil.rmtree(VERIF / 'replays' / prop, ignore_errors=True)
+        if not keep_replays:
+            shutil.rmtree(VERIF / 'replays' / prop, ignore_errors=True)
 
     # -- coverage
     def add_tlc(self, r):
